@@ -52,6 +52,8 @@ package header
 //@ func (Flags) Masked
 //@   inline
 
+// A Timestamp is the number of nanoseconds since 1970 (an unsigned number).
 //@ func TimestampFromTime
-//@   trusted
 //@   pure
+//@   ensures nanoseconds_since_1970: t.UnixNano() >= 0 ==> uint64(r0) == uint64(t.UnixNano())
+//@   ensures before_1970_is_older_than_everything: t.UnixNano() < 0 ==> r0 == 0
